@@ -358,7 +358,7 @@ def check_content(nc, ref, S, where=""):
         # state-dependent probes: the extremes, their semitone and octave neighbours, respelled
         for q in (ps[0], ps[0] - 1, ps[-1], ps[-1] + 1, ps[-1] + 12, ps[0] - 12):
             probe = Note("C", 0)
-            probe.octave, probe.name = q // 12, ("C", "Dbb", "D", "Eb", "Fb", "E#", "F#", "G", "Ab", "A", "A#", "Cb")[q % 12]
+            probe.octave, probe.name = q // 12, ("C", "Db", "D", "Eb", "Fb", "E#", "F#", "G", "Ab", "A", "A#", "Cb")[q % 12]
             if q % 12 == 11:
                 probe.octave += 1
             if R.pitch((probe.name, probe.octave)) != q:
@@ -818,17 +818,4 @@ def explore(ctx):
         ctx.note("%d duplicate additions left the new spelling behind (accepted reading)" % ctx.counter("duplicate_respelled_adopted"))
 
 
-# ---------------------------------------------------------------------------------------
-# known-finding predicates (only used if an entry of known_findings.json names them)
-# ---------------------------------------------------------------------------------------
-def _octave_shift(rec):
-    """stored pitches differ from the model's only by notes sitting exactly 12 semitones off."""
-    tags = rec.get("tags") or {}
-    got, want = tags.get("got_pitches"), tags.get("want_pitches")
-    if got is None or want is None:
-        return False
-    extra = [p for p in got if p not in want]
-    return bool(extra) and all(((p - 12) in want or (p - 12) in got or (p + 12) in want) for p in extra)
-
-
-KNOWN = {"bare_name_voiced_an_octave_off": _octave_shift}
+KNOWN = {}
